@@ -318,6 +318,66 @@ def matcher(P, R):
             if not ok:
                 mem = {x.get('field') for x in walk(l) if isinstance(x, dict) and x.get('k') == 'mem' and x.get('rec') == RULE_REC}
                 ok = bool(mem) and mem <= crit_fields
+            if not ok and is_var(l) and l['name'].startswith('__ret@'):
+                # the criteria moved into helpers that the model folded into this function: where a helper returns "no
+                # match" it stores 0 (or the outcome of a criterion test) into its result variable; those reasons are
+                # judged instead, helper inside helper included
+                def crit_expr(x):
+                    if isinstance(x, dict) and any(isinstance(y, dict) and y.get('k') == 'callref' and y.get('callee') in ('fnmatch', 'irc_check_mask', 'iauth_xreply_ok', 'strcmp', 'strcasecmp') for y in walk(x)):
+                        return True
+                    mem_ = {y.get('field') for y in walk(x) if isinstance(y, dict) and y.get('k') == 'mem' and y.get('rec') == RULE_REC}
+                    return bool(mem_) and mem_ <= crit_fields
+
+                def folded_ok(name, depth=0):
+                    if depth > 4:
+                        return False
+                    defs_ = [t3 for t3 in m.stores() if is_var(t3.ev.get('lhs'), name)]
+                    if not defs_:
+                        return False
+                    for t3 in defs_:
+                        v3 = t3.ev.get('rhs')
+                        c3 = const_of(v3)
+                        if isinstance(c3, int) and c3 != 0:
+                            continue
+                        if c3 is None:
+                            if not crit_expr(v3):
+                                return False
+                            continue
+                        for e3 in m.inn[t3.bid]:
+                            r3 = rules.edge_rel(e3)
+                            if not r3:
+                                continue
+                            l3 = r3[0]
+                            if is_var(l3) and l3['name'].startswith('__ret@'):
+                                if not folded_ok(l3['name'], depth + 1):
+                                    return False
+                            elif not crit_expr(l3):
+                                return False
+                    return True
+                ok = folded_ok(l['name'])
+            if not ok:
+                # the criteria moved into a helper of the same unit: its own "no match" returns are judged instead
+                hn = None
+                if is_var(l) and l['name'].startswith('__ret@'):
+                    hn = l['name'][len('__ret@'):].split('#')[0]
+                elif isinstance(l, dict) and l.get('k') == 'callref' and l.get('callee'):
+                    hn = l['callee']
+                hf = (P.direct_target(m, hn) or P.fn(hn, m.unit) or P.fn(hn)) if hn else None
+                if hf is not None and hf.unit == m.unit and hf.key != m.key:
+                    sub_ok = True
+                    for t2 in hf.sites():
+                        if t2.ev['k'] == 'ret' and const_of(t2.ev.get('val')) == 0:
+                            for e2 in hf.inn[t2.bid]:
+                                r2 = rules.edge_rel(e2)
+                                if not r2:
+                                    continue
+                                l2 = r2[0]
+                                ok2 = isinstance(l2, dict) and l2.get('k') == 'callref' and l2.get('callee') in ('fnmatch', 'irc_check_mask', 'iauth_xreply_ok', 'strcmp', 'strcasecmp')
+                                if not ok2:
+                                    mem2 = {x.get('field') for x in walk(l2) if isinstance(x, dict) and x.get('k') == 'mem' and x.get('rec') == RULE_REC}
+                                    ok2 = bool(mem2) and mem2 <= crit_fields
+                                sub_ok = sub_ok and ok2
+                    ok = sub_ok
             if not ok and is_var(l):
                 d = m.single_def(l['name'])
                 v = d[1] if d else None
